@@ -16,6 +16,7 @@ BASES = [[], [], [], [['lock', 1]], [['user', 2], ['lock', 1]], [['lock', 1], ['
 EXTRAS = [[], [], [['user', 5]], [['lock', 6]], [['user', 5], ['user', 7]], [['lock', 6], ['user', 5]], [['user', 8], ['lock', 6]]]
 
 
+SNAPS = ['pickle', 'deepcopy', 'model']      # pickle.dumps(machine) / copy.deepcopy(machine) / copy.deepcopy(a model)
 RAISES = ['exc', 'exc', 'base', 'kbd']      # Exception subclass / custom BaseException / KeyboardInterrupt-like
 
 
@@ -37,6 +38,13 @@ def gen_call(rng, case, tags, depth=0, kinds=None):
         if rng.random() < 0.2:
             k = str(rng.randrange(3))
             call['script'].setdefault(k, {'sub': [], 'raise': False})['raise'] = rng.choice(RAISES)
+        if rng.random() < 0.15:
+            # the callback takes a snapshot of the machine mid-event; engine steps (and often a re-entrant call) follow
+            k = str(rng.randrange(2))
+            sc = call['script'].setdefault(k, {'sub': [], 'raise': False})
+            sc['snap'] = rng.choice(SNAPS)
+            if depth < 2 and not sc['sub'] and rng.random() < 0.5:
+                sc['sub'].append(gen_call(rng, case, tags, depth + 1))
     elif kind == 'add_transition':
         call['args'] = [rng.choice(['go', 'back']), rng.choice(names + ['D']), rng.choice(names + ['D'])]
     elif kind == 'add_states':
@@ -291,6 +299,9 @@ def process(items):
             d = st.setdefault('call_kind', {})
             d[c['kind']] = d.get(c['kind'], 0) + 1
             for sc in (c.get('script') or {}).values():
+                if sc.get('snap'):
+                    d = st.setdefault('snapshot_in_callback', {})
+                    d[sc['snap']] = d.get(sc['snap'], 0) + 1
                 if sc.get('raise'):
                     d = st.setdefault('scripted_raise_kind', {})
                     kk = 'exc' if sc['raise'] is True else sc['raise']
@@ -340,6 +351,17 @@ CORPUS = [
      'threads': [[_c(1, 'dyn_ev', [0, 'go']), _c(2, 'dyn_remove', [0]), dict(_c(3, 'dyn_ev', [0, 'to_B']), unjudged=True),
                   _c(4, 'dyn_add', [0, [['lock', 6]]]), _c(5, 'dyn_ev', [0, 'to_A'])],
                  [_c(6, 'ev', [0, 'go']), _c(7, 'set_state', ['A', 0])]]},
+]
+
+
+CORPUS += [
+    # a callback persists the machine mid-event (pickle / deepcopy), engine steps and a re-entrant trigger follow
+    {'cls': 'flat', 'base': [], 'nmodels': 1, 'ignore': False, 'queued': False, 'extras': {'0': [['user', 5]]}, 'dyn': [],
+     'threads': [[_c(1, 'ev', [0, 'go'], {'1': {'snap': 'pickle', 'sub': [_c(2, 'ev', [0, 'go'])], 'raise': False}})],
+                 [_c(3, 'ev', [0, 'to_A'])]]},
+    {'cls': 'hsm', 'base': [['user', 2], ['lock', 1]], 'nmodels': 1, 'ignore': False, 'queued': False, 'extras': {'0': []}, 'dyn': [],
+     'threads': [[_c(1, 'ev', [0, 'go'], {'0': {'snap': 'deepcopy', 'sub': [], 'raise': False}})],
+                 [_c(2, 'set_state', ['B', 0])]]},
 ]
 
 
@@ -517,12 +539,12 @@ class C06(runner.Check):
     level = 'proof'
     theorems = ('TM.Locked.C06_mutex', 'TM.Locked.C06_no_overlap', 'TM.Locked.C06_serializable',
                 'TM.Locked.C06_reentrant_no_deadlock', 'TM.Locked.C06_contexts_held_in_order',
-                'TM.Locked.C06_registered_contexts', 'TM.Locked.C06_released_on_raise')
+                'TM.Locked.C06_registered_contexts', 'TM.Locked.C06_released_on_raise', 'TM.Locked.C06_snapshot_frame')
     rule = ('thread programs on real LockedMachine / LockedHierarchicalMachine objects (default and user supplied '
             'machine_context lists containing a mutex, model_context lists, 1-3 shared models): 2-4 threads x 1-3 calls '
             '(events by attribute and by model.trigger, add_transition, add_states, set_state, remove_model, add_model incl. '
             're-adding a removed model with and without model_context, events on a currently unregistered model as unjudged steps, re-entrant '
-            'calls from callbacks two levels deep, callbacks raising an Exception subclass / a custom BaseException / a KeyboardInterrupt subclass), run under a deterministic controller; schedules: '
+            'calls from callbacks two levels deep, callbacks raising an Exception subclass / a custom BaseException / a KeyboardInterrupt subclass, callbacks that pickle / deep-copy the machine or a model mid-event), run under a deterministic controller; schedules: '
             'every schedule with at most 2 (thorough: 3) preemptions of 2-thread x <=2-call programs, and random '
             'schedules (switch probability 0.15-1.0) of the larger ones; non-trivial = contention observed (a thread '
             'blocked at a lock, or calls of two threads open at once); distinct = different program or event sequence')
